@@ -545,7 +545,9 @@ def issue (P : Crypto) (E : Env) (sign : Key → Bytes → Sig) (allDefined : Cr
         let c := { u with proof := .one { p with jws := sign key (tbs P p (P.canon u)) }, nProofs := 1 }
         if !allDefined c then .err "undefined-fields" else
         match validate E c with
-        | .pass => .ok c
+        | .pass =>
+          -- combinedStore.StoreCredential: the SQL store (every DID method but did:nuts) indexes by subject DID
+          if !("did:nuts:".toList.isPrefixOf t.issuer.toList) && (subjectDID c).isNone then .err "no-subject" else .ok c
         | .fail e => .err e
         | .panic s => .panic s
       | .jwt =>
